@@ -25,6 +25,7 @@ EXTENDS CollectorOps, TLC
 CONSTANTS
   Sorts,          \* set of sort specs explored
   Sizes, Skips,   \* page mode: size x skip
+  Totals,         \* if non-empty, only page requests with size+skip in Totals
   AfterSizes,     \* sizes for search-after / search-before requests
   ReqModes,       \* subset of {"page", "after", "before"}
   MaxN,           \* matches per search (single-key sorts)
@@ -59,8 +60,11 @@ SortsTotal == { <<KField(1, D, MF, "first"), KId(A)>>, <<KScore(D), KId(D)>> }
 SortsQuick    == SortsScore \cup SortsKey4 \cup {<<KField(1, A, ML, "min")>>, <<KField(1, D, MF, "max")>>}
                   \cup SortsTwo \cup SortsId \cup SortsTotal
 SortsThorough == SortsScore \cup SortsKey4 \cup SortsMode \cup SortsTwo \cup SortsId \cup SortsTotal
+SortsHeap     == { <<KScore(D)>>, <<KField(1, D, MF, "first")>>, <<KField(1, A, ML, "first"), KScore(D)>>, <<KId(A)>> }
+SortsSim      == SortsThorough
                   \cup { <<KField(1, A, MF, "first"), KField(2, D, ML, "first"), KId(A)>>,
-                         <<KScore(A), KField(1, D, ML, "max")>> }
+                         <<KScore(A), KField(1, D, ML, "max")>>,
+                         <<KField(2, A, ML, "min"), KField(1, D, MF, "first"), KScore(D)>> }
 SortsPaging   == { <<KScore(D)>>, <<KField(1, A, ML, "first")>>, <<KField(1, D, MF, "max")>>,
                    <<KField(1, D, ML, "first"), KScore(D)>> } \cup SortsId \cup SortsTotal
 
@@ -95,8 +99,8 @@ KeyDom(sort) == { SortValue(m, sort) : m \in MatchDom(sort, <<>>) }
 
 PageRequests(so) ==
   IF "page" \in ReqModes
-  THEN { [sort |-> so, size |-> sz, skip |-> sk, mode |-> "page", key |-> <<>>] :
-           sz \in Sizes, sk \in Skips }
+  THEN { [sort |-> so, size |-> c[1], skip |-> c[2], mode |-> "page", key |-> <<>>] :
+           c \in { c \in Sizes \X Skips : Totals = {} \/ c[1] + c[2] \in Totals } }
   ELSE {}
 
 KeyRequests(so) ==
@@ -148,6 +152,8 @@ CmpIsOrder ==
 RevIsReverse ==
   \A i, j \in AllHits(seen) :
      LexOrder(seen[i], seen[j], Rev(rq.sort), 1) = - LexOrder(seen[i], seen[j], rq.sort, 1)
+
+SortAllIsRank == Sorted = SortAllByRank(seen, Eligible, P.sort)
 
 TotalIsAll    == total = Len(seen)              \* also under search-after: filtered hits count
 MaxScoreIsMax == maxScore = MaxScoreOf(seen)    \* over all matches, kept or not
